@@ -10,9 +10,11 @@ import (
 	"encoding/json"
 	"flag"
 	"fmt"
+	"math"
 	"os"
 	"os/exec"
 	"path/filepath"
+	"reflect"
 	"runtime"
 	"sort"
 	"strconv"
@@ -96,10 +98,44 @@ func (r *Rec) State(h uint64) { r.states[h] = struct{}{} }
 func (r *Rec) Fail(sig, what string, detail interface{}) {
 	a := r.Fails[sig]
 	if a == nil {
-		a = &FailAgg{Sig: sig, First: Failure{Sig: sig, What: what, Case: r.cur, Detail: detail}}
+		a = &FailAgg{Sig: sig, First: Failure{Sig: sig, What: what, Case: r.cur, Detail: Sanitize(detail)}}
 		r.Fails[sig] = a
 	}
 	a.Count++
+}
+
+// Sanitize makes a value JSON-encodable: non-finite floats become strings.
+func Sanitize(v interface{}) interface{} {
+	rv := reflect.ValueOf(v)
+	switch rv.Kind() {
+	case reflect.Float64, reflect.Float32:
+		f := rv.Float()
+		if math.IsNaN(f) || math.IsInf(f, 0) {
+			return fmt.Sprint(f)
+		}
+		return f
+	case reflect.Map:
+		out := map[string]interface{}{}
+		for _, k := range rv.MapKeys() {
+			out[fmt.Sprint(k.Interface())] = Sanitize(rv.MapIndex(k).Interface())
+		}
+		return out
+	case reflect.Slice, reflect.Array:
+		if rv.Kind() == reflect.Slice && rv.IsNil() {
+			return nil
+		}
+		out := make([]interface{}, rv.Len())
+		for i := range out {
+			out[i] = Sanitize(rv.Index(i).Interface())
+		}
+		return out
+	case reflect.Ptr, reflect.Interface:
+		if rv.IsNil() {
+			return nil
+		}
+		return Sanitize(rv.Elem().Interface())
+	}
+	return v
 }
 
 // Failf is Fail with a formatted description.
@@ -359,7 +395,11 @@ func workerMain(c *Check, o Opts) {
 				w.States = append(w.States, s)
 			}
 		}
-		enc, _ := json.Marshal(&w)
+		enc, err := json.Marshal(&w)
+		if err != nil {
+			fmt.Fprintln(os.Stderr, "worker: cannot encode block result:", err)
+			os.Exit(3)
+		}
 		out.Write(enc)
 		out.WriteByte('\n')
 		out.Flush()
